@@ -27,6 +27,19 @@ H = os.path.join(core.VERIF, "harness", "h14_snippet.py")
 TAG_RE = r"^[a-z0-9]+_v\w+_generated_\w+_\w+_(sync|async)$"
 
 
+def oneof_index(fdps):
+    """message -> {oneof name: [member field names]} for REAL oneofs (synthetic proto3-optional oneofs excluded)"""
+    out = {}
+    for fdp in fdps:
+        for m in fdp.message_type:
+            groups = {}
+            for f in m.field:
+                if f.HasField("oneof_index") and not f.proto3_optional:
+                    groups.setdefault(m.oneof_decl[f.oneof_index].name, []).append(f.name)
+            out[m.name] = groups
+    return out
+
+
 def field_index(fdps):
     idx = {}
     for fdp in fdps:
@@ -53,6 +66,7 @@ def program_diff():
     fdps = [fb.f for fb in apis.samples_api()]
     g = gen.generate(apis.samples_api(), parameter="transport=grpc+rest")
     idx = field_index(fdps)
+    oneofs = oneof_index(fdps)
     bad, oks = {}, []
     samples = {n: t for n, t in g.files.items() if n.startswith("samples/generated_samples/") and n.endswith(".py")}
     rpcs = [m.name for svc in fdps[0].service for m in svc.method]
@@ -79,11 +93,13 @@ def program_diff():
         # request set-up: attribute paths must exist on the generated types
         fn = [n for n in tree.body if isinstance(n, (ast.FunctionDef, ast.AsyncFunctionDef))][0]
         var_type = {}
+        populated = {}       # variable -> top-level fields the sample populates
         for node in ast.walk(fn):
             if isinstance(node, ast.Assign) and isinstance(node.value, ast.Call) and isinstance(node.value.func, ast.Attribute) \
                     and isinstance(node.targets[0], ast.Name) and node.value.func.attr in idx:
                 var_type[node.targets[0].id] = node.value.func.attr
                 for kw in node.value.keywords:
+                    populated.setdefault(node.targets[0].id, set()).add(kw.arg)
                     if kw.arg not in idx[node.value.func.attr]:
                         bad[f"field:{name}:{kw.arg}"] = f"{node.value.func.attr}({kw.arg}=...) names no field"
         for node in ast.walk(fn):
@@ -96,12 +112,20 @@ def program_diff():
                 if isinstance(cur, ast.Name) and cur.id in var_type:
                     t = var_type[cur.id]
                     path = list(reversed(chain))
+                    populated.setdefault(cur.id, set()).add(path[0])
                     for seg in path:
                         if t is None or seg not in idx.get(t, {}):
                             bad[f"field:{name}:{'.'.join(path)}"] = (f"sample assigns {cur.id}.{'.'.join(path)} but "
                                                                      f"{var_type[cur.id]} has no such field path")
                             break
                         t = idx[t][seg]
+        # one member of each oneof populated (never two)
+        for var, fields_ in populated.items():
+            for oname, members in oneofs.get(var_type[var], {}).items():
+                hit = sorted(set(members) & fields_)
+                if len(hit) > 1:
+                    bad[f"oneof:{name}:{var_type[var]}.{oname}"] = (f"the sample populates {len(hit)} members {hit} of oneof "
+                                                                    f"{var_type[var]}.{oname}")
         # docstring embedding
         lines = text.splitlines(keepends=True)
         s_i = [i for i, l in enumerate(lines) if l.startswith("# [START")][0]
